@@ -117,9 +117,41 @@ def persistence_checks(p):
                         vs.append(C.viol("edge-set-not-preserved", {"variant": label},
                                          {"saved": sorted(e0), "loaded_in": sorted(e_in), "loaded_out": sorted(e_out),
                                           "dropped": [mi for mi, _ in drop], "added": [mi for mi, _ in add]}))
+                    if have and len(drop) == len(have) and not add and not inv:
+                        n2, vs2 = edited_after_load(nb, sorted(e_in))
+                        n += n2
+                        vs += vs2
                     if not drop and len(add) == len(lack) and tables(p3) != t0:
                         vs.append(C.viol("tables-not-preserved", {"variant": "slots-added-everywhere"},
                                          {"before": t0, "after": tables(p3)}))
+    return n, vs
+
+
+def edited_after_load(nb, edges):
+    """The project is loaded from the file WITHOUT slot chunks (the way SunVox writes it), then ONE link is removed, and
+    the result saved and loaded: tables and edge set as they were after the edit."""
+    vs = []
+    n = 0
+    for (a, b_) in edges:
+        p = C.load_bytes(nb)
+        try:
+            p.modules[a] >> ~p.modules[b_]
+        except Exception as e:
+            vs.append(C.viol("edit-after-load-raises", {"exc": type(e).__name__}, {"error": repr(e), "edge": [a, b_]}))
+            continue
+        t1 = tables(p)
+        e1 = c07.edge_sets(p)[0]
+        try:
+            q = C.load_bytes(C.save(p))
+        except Exception as e:
+            vs.append(C.viol("load-raises", {"variant": "loaded-without-slots-then-edited", "exc": type(e).__name__}, {"error": repr(e)}))
+            continue
+        n += 1
+        if tables(q) != t1 or c07.edge_sets(q)[0] != e1:
+            vs.append(C.viol("tables-not-preserved", {"variant": "loaded-without-slots-then-edited"},
+                             {"before": t1, "after": tables(q), "removed": [a, b_]}))
+        if len(vs) >= 2:
+            break
     return n, vs
 
 
